@@ -162,10 +162,10 @@ Proof.
   apply andb_true_iff in H. destruct H as [H1 H2]. apply N.eqb_eq in H1. apply IH in H2. congruence.
 Qed.
 
-Lemma align_mode_partial : forall a, align_guard a = true -> align_mode_of a = spec_mode a.
+Lemma align_mode_gen_partial : forall exact a, align_guard a = true -> align_mode_gen exact a = spec_mode a.
 Proof.
-  intros a G. unfold align_guard in G. apply andb_true_iff in G. destruct G as [G1 G2].
-  unfold align_mode_of, spec_mode.
+  intros exact a G. unfold align_guard in G. apply andb_true_iff in G. destruct G as [G1 G2].
+  unfold align_mode_gen, spec_mode, kw_test. destruct exact; [reflexivity|].
   destruct (str_eqb a gen_align_center) eqn:C.
   - apply str_eqb_true in C. subst. reflexivity.
   - destruct (prefix_eqb gen_align_center a) eqn:PC; [discriminate|].
@@ -174,5 +174,22 @@ Proof.
     + destruct (prefix_eqb gen_align_right a) eqn:PR; [discriminate | reflexivity].
 Qed.
 
-Lemma align_mode_refuted : exists a, align_mode_of a <> spec_mode a.
+Lemma align_mode_partial : forall a, align_guard a = true -> align_mode_of a = spec_mode a.
+Proof. intros a. apply align_mode_gen_partial. Qed.
+
+(* with the whole-argument comparison the definition holds for every argument *)
+Lemma align_mode_exact_full : forall a, align_mode_gen true a = spec_mode a.
+Proof. intros a. reflexivity. Qed.
+
+(* with the prefix comparison it does not *)
+Lemma align_mode_prefix_refuted : exists a, align_mode_gen false a <> spec_mode a.
 Proof. exists (gen_align_center ++ [101; 100]%N). vm_compute. discriminate. Qed.
+
+Lemma align_mode_full_or_refuted :
+  (gen_align_exact_keyword = true /\ forall a, align_mode_of a = spec_mode a)
+  \/ (gen_align_exact_keyword = false /\ exists a, align_mode_of a <> spec_mode a).
+Proof.
+  unfold align_mode_of. destruct gen_align_exact_keyword.
+  - left. split; [reflexivity | apply align_mode_exact_full].
+  - right. split; [reflexivity | apply align_mode_prefix_refuted].
+Qed.
